@@ -39,6 +39,10 @@ def run(ctx):
     ctx.bounds['instances'] = [dict(zip(('name', 'senders', 'msgs', 'drainers', 'stoppers', 'rounds', 'cas_unroll', 'spurious'), i)) for i in insts]
     type_gate(ctx, prog)
     ctx.parallel(job, insts)
+    # the public wrappers hand the message over once and return the mailbox's verdict unchanged
+    import C02_wrappers
+    import lifecycle as lc_
+    C02_wrappers.check(ctx, lc_.load()[0])
     # dequeue side: one handler invocation per dequeued message (sequential, over the real process_message / handle_message of each runtime)
     import C02_dequeue
     import C02_dequeue_replay
